@@ -49,7 +49,7 @@ def pauli_basis_strings(n):
 def closed_leaf(s):
     """Closed-form matrix for a leaf spec, or None."""
     name = s["op"]
-    ws = _w(s.get("w", []))
+    ws = _w(s.get("w") or [])
     n = len(ws)
     p = s.get("p", [])
     kw = s.get("kw", {}) or {}
